@@ -14,7 +14,7 @@ def run(tier, replay=None):
     if replay:
         return transport.replay(v, replay)
     v.assumptions = [
-        "C08's domain: controller reply delays below the timeout, no strays; all calls of a scenario address the SAME controller on a shared fixed port (G_c08_fixed, G_c08_4) or ephemeral ports (G_c08_eph); the farm's reply carries the tag of the request it answers, so a crossed reply is visible in the returned value",
+        "C08's domain: controller reply delays below the timeout, no strays; all calls of a scenario address the SAME controller on a shared fixed port (G_c08_fixed, G_c08_4) or ephemeral ports (G_c08_eph), or queue for the fixed port and then use TCP, each to its own controller (G_c08_tcp); the farm's reply carries the tag of the request it answers, so a crossed reply is visible in the returned value",
         "whether a memory race happened is observed by the Go race detector (-race build of the harness, same scripts + discovery + listener shutdown); every report with a frame in uhppote-core is a violation",
         "timing: see C03",
     ]
@@ -26,7 +26,7 @@ def run(tier, replay=None):
         ("MC_Discovery", "MC_Discovery.cfg", {"workers": 8, "heap": "4g"}, "pass"),
         ("MC_Discovery", "XF_DiscoveryUnsync.cfg", {"workers": 4}, "fail"),
     ])
-    groups = ["G_c08_fixed", "G_c08_eph", "G_c08_4"]
+    groups = ["G_c08_fixed", "G_c08_eph", "G_c08_4", "G_c08_tcp"]
     n = 40 if tier == "quick" else 500
     total, drift, _ = transport.run_groups(v, groups, n)
     # the same scripts under the race detector, plus discovery while replies arrive and listener shutdown
